@@ -111,6 +111,27 @@ Fixpoint copy_over (prim bv : list (option vote)) : list (option vote) :=
   | _, _ => prim
   end.
 
+(* the common tail of addVerifiedVote: store the entry for [key]; if its sum just crossed the
+   quorum and no majority was recorded yet, record it and copy the entry's votes over *)
+Definition commit_entry (s : voteset) (votes1 : list (option vote)) (sum1 : Z)
+           (key : blockid) (old_sum : Z) (bv' : blockvotes) : voteset :=
+  let crossed := (old_sum <? quorum (vs_vals s)) && (quorum (vs_vals s) <=? bv_sum bv') in
+  let maj := if crossed then match vs_maj23 s with None => Some key | Some m => Some m end
+             else vs_maj23 s in
+  let votes2 := if crossed then match vs_maj23 s with None => copy_over votes1 (bv_votes bv') | Some _ => votes1 end
+                else votes1 in
+  {| vs_height := vs_height s; vs_round := vs_round s; vs_type := vs_type s; vs_vals := vs_vals s;
+     vs_votes := votes2; vs_sum := sum1; vs_maj23 := maj;
+     vs_byblock := update_bv key bv' (vs_byblock s); vs_peermaj := vs_peermaj s |}.
+
+(* blockVotes.addVerifiedVote *)
+Definition bv_add (bv : blockvotes) (v : vote) (power : Z) : blockvotes :=
+  match get_slot (bv_votes bv) (v_idx v) with
+  | Some _ => bv
+  | None => {| bv_peermaj := bv_peermaj bv; bv_votes := set_nth (Z.to_nat (v_idx v)) (Some v) (bv_votes bv);
+               bv_sum := bv_sum bv + power |}
+  end.
+
 (* addVerifiedVote *)
 Definition add_verified (s : voteset) (v : vote) (power : Z) : voteset * bool * bool (* added, conflicting *) :=
   let i := Z.to_nat (v_idx v) in
@@ -118,53 +139,28 @@ Definition add_verified (s : voteset) (v : vote) (power : Z) : voteset * bool * 
   let existing := get_slot (vs_votes s) (v_idx v) in
   let conflicting := match existing with Some _ => true | None => false end in
   (* voteSet.votes / sum *)
-  let '(votes1, sum1) :=
+  let votes1 :=
     match existing with
     | Some _ =>
-      (match vs_maj23 s with
-       | Some m => if blockid_eqb m key then set_nth i (Some v) (vs_votes s) else vs_votes s
-       | None => vs_votes s
-       end, vs_sum s)
-    | None => (set_nth i (Some v) (vs_votes s), vs_sum s + power)
+      match vs_maj23 s with
+      | Some m => if blockid_eqb m key then set_nth i (Some v) (vs_votes s) else vs_votes s
+      | None => vs_votes s
+      end
+    | None => set_nth i (Some v) (vs_votes s)
     end in
+  let sum1 := match existing with Some _ => vs_sum s | None => vs_sum s + power end in
   let s1 := {| vs_height := vs_height s; vs_round := vs_round s; vs_type := vs_type s; vs_vals := vs_vals s;
                vs_votes := votes1; vs_sum := sum1; vs_maj23 := vs_maj23 s;
                vs_byblock := vs_byblock s; vs_peermaj := vs_peermaj s |} in
-  let tracked := lookup_bv key (vs_byblock s) in
-  match tracked with
+  match lookup_bv key (vs_byblock s) with
   | Some bv =>
-    if conflicting && negb (bv_peermaj bv) then (s1, false, true) else
-    let bv' := match get_slot (bv_votes bv) (v_idx v) with
-               | Some _ => bv
-               | None => {| bv_peermaj := bv_peermaj bv; bv_votes := set_nth i (Some v) (bv_votes bv);
-                            bv_sum := bv_sum bv + power |}
-               end in
-    let crossed := (bv_sum bv <? quorum (vs_vals s)) && (quorum (vs_vals s) <=? bv_sum bv') in
-    let '(maj, votes2) :=
-      if crossed then
-        match vs_maj23 s1 with
-        | None => (Some key, copy_over votes1 (bv_votes bv'))
-        | Some m => (Some m, votes1)
-        end
-      else (vs_maj23 s1, votes1) in
-    ({| vs_height := vs_height s; vs_round := vs_round s; vs_type := vs_type s; vs_vals := vs_vals s;
-        vs_votes := votes2; vs_sum := sum1; vs_maj23 := maj;
-        vs_byblock := update_bv key bv' (vs_byblock s); vs_peermaj := vs_peermaj s |}, true, conflicting)
+    if conflicting && negb (bv_peermaj bv) then (s1, false, true)
+    else (commit_entry s votes1 sum1 key (bv_sum bv) (bv_add bv v power), true, conflicting)
   | None =>
-    if conflicting then (s1, false, true) else
-    let bv' := {| bv_peermaj := false; bv_votes := set_nth i (Some v) (repeat None (length (vs_vals s)));
-                  bv_sum := power |} in
-    let crossed := (0 <? quorum (vs_vals s)) && (quorum (vs_vals s) <=? bv_sum bv') in
-    let '(maj, votes2) :=
-      if crossed then
-        match vs_maj23 s1 with
-        | None => (Some key, copy_over votes1 (bv_votes bv'))
-        | Some m => (Some m, votes1)
-        end
-      else (vs_maj23 s1, votes1) in
-    ({| vs_height := vs_height s; vs_round := vs_round s; vs_type := vs_type s; vs_vals := vs_vals s;
-        vs_votes := votes2; vs_sum := sum1; vs_maj23 := maj;
-        vs_byblock := update_bv key bv' (vs_byblock s); vs_peermaj := vs_peermaj s |}, true, false)
+    if conflicting then (s1, false, true)
+    else (commit_entry s votes1 sum1 key 0
+            (bv_add {| bv_peermaj := false; bv_votes := repeat None (length (vs_vals s)); bv_sum := 0 |} v power),
+          true, false)
   end.
 
 (* getVote(valIndex, blockKey) *)
@@ -381,16 +377,6 @@ Definition seq (a b : M) : M :=
            if cs_halted s1 then (s1, o1) else
            let '(s2, o2) := b s1 in (s2, o1 ++ o2).
 Definition emit (o : output) : M := fun s => (s, [o]).
-Definition panic (code : N) : M :=
-  fun s => ({| cs_height := cs_height s; cs_round := cs_round s; cs_step := cs_step s;
-               cs_triggered := cs_triggered s; cs_proposal := cs_proposal s;
-               cs_pblock := cs_pblock s; cs_pparts := cs_pparts s;
-               cs_lround := cs_lround s; cs_lblock := cs_lblock s; cs_lparts := cs_lparts s;
-               cs_vround := cs_vround s; cs_vblock := cs_vblock s; cs_vparts := cs_vparts s;
-               cs_commit_round := cs_commit_round s; cs_votes := cs_votes s;
-               cs_last_commit := cs_last_commit s; cs_scheduled := cs_scheduled s;
-               cs_halted := true |}, [OPanic code]).
-
 (* field setters *)
 Definition set_rs (r : Z) (st : step) (s : cstate) : cstate :=
   {| cs_height := cs_height s; cs_round := r; cs_step := st;
@@ -459,17 +445,16 @@ Definition set_commit_round (r : Z) (s : cstate) : cstate :=
 
 Definition modify (f : cstate -> cstate) : M := fun s => (f s, []).
 
+Definition add_sched (ti : tinfo) (s : cstate) : cstate :=
+  {| cs_height := cs_height s; cs_round := cs_round s; cs_step := cs_step s; cs_triggered := cs_triggered s; cs_proposal := cs_proposal s; cs_pblock := cs_pblock s; cs_pparts := cs_pparts s; cs_lround := cs_lround s; cs_lblock := cs_lblock s; cs_lparts := cs_lparts s; cs_vround := cs_vround s; cs_vblock := cs_vblock s; cs_vparts := cs_vparts s; cs_commit_round := cs_commit_round s; cs_votes := cs_votes s; cs_last_commit := cs_last_commit s; cs_scheduled := ti :: cs_scheduled s; cs_halted := cs_halted s |}.
+Definition set_halted (s : cstate) : cstate :=
+  {| cs_height := cs_height s; cs_round := cs_round s; cs_step := cs_step s; cs_triggered := cs_triggered s; cs_proposal := cs_proposal s; cs_pblock := cs_pblock s; cs_pparts := cs_pparts s; cs_lround := cs_lround s; cs_lblock := cs_lblock s; cs_lparts := cs_lparts s; cs_vround := cs_vround s; cs_vblock := cs_vblock s; cs_vparts := cs_vparts s; cs_commit_round := cs_commit_round s; cs_votes := cs_votes s; cs_last_commit := cs_last_commit s; cs_scheduled := cs_scheduled s; cs_halted := true |}.
+
 (* scheduleTimeout: recorded by the ticker *)
 Definition schedule (h r : Z) (st : step) : M :=
-  fun s => ({| cs_height := cs_height s; cs_round := cs_round s; cs_step := cs_step s;
-               cs_triggered := cs_triggered s; cs_proposal := cs_proposal s;
-               cs_pblock := cs_pblock s; cs_pparts := cs_pparts s;
-               cs_lround := cs_lround s; cs_lblock := cs_lblock s; cs_lparts := cs_lparts s;
-               cs_vround := cs_vround s; cs_vblock := cs_vblock s; cs_vparts := cs_vparts s;
-               cs_commit_round := cs_commit_round s; cs_votes := cs_votes s;
-               cs_last_commit := cs_last_commit s;
-               cs_scheduled := {| ti_height := h; ti_round := r; ti_step := st |} :: cs_scheduled s;
-               cs_halted := cs_halted s |}, [OSchedule h r st]).
+  fun s => (add_sched {| ti_height := h; ti_round := r; ti_step := st |} s, [OSchedule h r st]).
+
+Definition panic (code : N) : M := fun s => (set_halted s, [OPanic code]).
 
 Section WithEnv.
 Variable E : env.
